@@ -23,8 +23,9 @@ import (
 
 // call is one API operation instance.
 type call struct {
-	Kind string // list info get getver getcond put activate delver delete
+	Kind string // list info get getver getcond put putsame activate delver delete
 	Ver  uint32
+	Val  string // put: the value (default: a marker no state holds)
 }
 
 func (c call) action() string {
@@ -33,7 +34,7 @@ func (c call) action() string {
 		return "info"
 	case "get", "getver", "getcond":
 		return "get"
-	case "put":
+	case "put", "putsame":
 		return "put"
 	case "activate":
 		return "activate"
@@ -43,13 +44,25 @@ func (c call) action() string {
 
 func (c call) mutating() bool {
 	switch c.Kind {
-	case "put", "activate", "delver", "delete":
+	case "put", "putsame", "activate", "delver", "delete":
 		return true
 	}
 	return false
 }
 
-func (c call) String() string { return fmt.Sprintf("%s/%d", c.Kind, c.Ver) }
+func (c call) String() string {
+	if c.Val != "" {
+		return fmt.Sprintf("%s/%d(the stored value)", c.Kind, c.Ver)
+	}
+	return fmt.Sprintf("%s/%d", c.Kind, c.Ver)
+}
+
+func (c call) value() []byte {
+	if c.Val != "" {
+		return []byte(c.Val)
+	}
+	return []byte(marker)
+}
 
 type outcome struct {
 	Class model.Class
@@ -100,8 +113,8 @@ func run(d *db.DB, caller db.Caller, c call, name string) outcome {
 			return mk("", err)
 		}
 		return mk(fmt.Sprintf("%d:%q", sv.Version, sv.Value), nil)
-	case "put":
-		v, err := d.Put(caller, name, []byte(marker))
+	case "put", "putsame":
+		v, err := d.Put(caller, name, c.value())
 		return mk(fmt.Sprint(v), err)
 	case "activate":
 		return mk("", d.Activate(caller, name, api.SecretVersion(c.Ver)))
@@ -177,7 +190,7 @@ var c01Calls = []call{
 	{Kind: "list"}, {Kind: "info"}, {Kind: "get"},
 	{Kind: "getver", Ver: 1}, {Kind: "getver", Ver: 2}, {Kind: "getver", Ver: 9},
 	{Kind: "getcond", Ver: 1}, {Kind: "getcond", Ver: 2}, {Kind: "getcond", Ver: 9},
-	{Kind: "put"},
+	{Kind: "put"}, {Kind: "putsame"},
 	{Kind: "activate", Ver: 0}, {Kind: "activate", Ver: 1}, {Kind: "activate", Ver: 2},
 	{Kind: "delver", Ver: 0}, {Kind: "delver", Ver: 1}, {Kind: "delver", Ver: 2},
 	{Kind: "delete"},
@@ -195,7 +208,7 @@ func checkC01(t *testing.T, env *report.Env, rep *report.Report) {
 	fs := &failSet{}
 	sets := ruleUniverse(env.Thorough())
 	sec := rep.Add(&report.Section{Name: fmt.Sprintf("acl-all-rule-sets-depth%d", depth), Engine: "seqx", Exhaustive: true, Extra: map[string]int64{},
-		Rule:  "every database state of the BFS (names a, ab) × every rule set of the universe × 17 operation instances × targets {a, ab, zz, _internal/x, _internal/a, space-a, ab/../a, a/}; an allowed call changes only the name it was given and a name the database does not hold is not found however it is spelled, at the db.DB API and through the HTTP handlers; reference decision = independent glob/ACL evaluator; non-trivial = evaluations that the reference allows (the call must then behave exactly like the superuser's)",
+		Rule:  "every database state of the BFS (names a, ab) × every rule set of the universe × 18 operation instances (incl. a put of the bytes the secret already holds) × targets {a, ab, zz, _internal/x, _internal/a, space-a, ab/../a, a/}; an allowed call changes only the name it was given and a name the database does not hold is not found however it is spelled, at the db.DB API and through the HTTP handlers; reference decision = independent glob/ACL evaluator; non-trivial = evaluations that the reference allows (the call must then behave exactly like the superuser's)",
 		Bound: fmt.Sprintf("depth %d; %d rule sets", depth, len(sets))})
 	states, trans := BFS(alpha, depth, 16, nil, fs.add)
 	sec.States, sec.Transitions = int64(len(states)), trans
@@ -231,6 +244,17 @@ func checkC01(t *testing.T, env *report.Env, rep *report.Report) {
 					for _, name := range c01Targets {
 						if c.Kind == "list" && name != "a" {
 							continue
+						}
+						c := c
+						if c.Kind == "putsame" {
+							// a put of exactly the bytes the secret's newest version holds (a put that stores
+							// nothing when it is allowed): it needs the same grant as any other put
+							c.Kind = "put"
+							ms := s.Model.S[name]
+							if ms == nil || ms.Versions[ms.Latest] == "" {
+								continue
+							}
+							c.Val = ms.Versions[ms.Latest]
 						}
 						evals++
 						allowed := model.Allow(ref, c.action(), name)
@@ -376,8 +400,8 @@ func httpCall(mux *http.ServeMux, c call, name string) (int, string) {
 		path, body = "/api/get", api.GetRequest{Name: name, Version: api.SecretVersion(c.Ver)}
 	case "getcond":
 		path, body = "/api/get", api.GetRequest{Name: name, Version: api.SecretVersion(c.Ver), UpdateIfChanged: true}
-	case "put":
-		path, body = "/api/put", api.PutRequest{Name: name, Value: []byte(marker)}
+	case "put", "putsame":
+		path, body = "/api/put", api.PutRequest{Name: name, Value: c.value()}
 	case "activate":
 		path, body = "/api/activate", api.ActivateRequest{Name: name, Version: api.SecretVersion(c.Ver)}
 	case "delver":
